@@ -65,6 +65,13 @@ def resolve(sym: dict, ctx: Dict[str, Any]) -> Dict[str, Tuple[Any, str]]:
     return out
 
 
+def _is_marker(a: Any) -> bool:
+    try:
+        return bool(a == 666.0)
+    except Exception:
+        return False
+
+
 def float_op(proc: str, x: float, p: Dict[str, Any], ctx: Dict[str, Any], log: list) -> float:
     """One transition function per processor."""
     if proc == "VMul":
@@ -107,14 +114,14 @@ def float_op(proc: str, x: float, p: Dict[str, Any], ctx: Dict[str, Any], log: l
         raise Fail("KeyboardInterrupt")
     if proc == "VFail":
         log.append(("VFail", {}))
-        raise Fail("ValueError")
+        raise Fail("ValueError", "deliberate")
     if proc == "VFailEmpty":
         log.append(("VFailEmpty", {}))
-        raise Fail("RuntimeError")
+        raise Fail("RuntimeError", "deliberate")
     if proc == "VFailIf":
         log.append(("VFailIf", {"a": p["a"]}))
-        if p["a"] == 666.0:
-            raise Fail("ValueError")
+        if _is_marker(p["a"]):
+            raise Fail("ValueError", "deliberate")
         return x
     raise AssertionError(proc)
 
@@ -150,9 +157,7 @@ def step(sym: dict, data: Any, ctx: Dict[str, Any], out: Outcome) -> Any:
     p = {k: v for k, (v, _) in p_full.items()}
     if kind == "source":
         log.append((sym["node"]["processor"], {"value": p["value"]}))
-        if not isinstance(p["value"], float):
-            raise Fail("AssertionError")
-        return ("F", float(p["value"]))
+        return ("F", float(p["value"]))  # float() of whatever was given; its own TypeError / ValueError is the processor's error
     if kind == "paysource":
         log.append(("VPaySrc", {}))
         if "b" in ctx:
@@ -217,6 +222,12 @@ def step(sym: dict, data: Any, ctx: Dict[str, Any], out: Outcome) -> Any:
     raise AssertionError(kind)
 
 
+def _same(a: Any, b: Any) -> bool:
+    from mc.core import same
+
+    return same(a, b)
+
+
 def run(prog: Sequence[str], data: Any, ctx: Dict[str, Any]) -> Outcome:
     out = Outcome()
     ctx = dict(ctx)
@@ -234,9 +245,9 @@ def run(prog: Sequence[str], data: Any, ctx: Dict[str, Any]) -> Outcome:
         ntab = len(out.table)
         try:
             data = step(sym, data, ctx, out)
-        except (Fail, TypeError) as f:
-            # a Python TypeError inside the processor's own arithmetic (e.g. float * list) is a processor error
-            out.status, out.error, out.index = "fail", getattr(f, "error", "TypeError"), i
+        except (Fail, TypeError, ValueError, OverflowError, ZeroDivisionError) as f:
+            # a Python error inside the processor's own arithmetic (float * list, float(""), ...) is a processor error
+            out.status, out.error, out.index = "fail", getattr(f, "error", type(f).__name__), i
             out.reason = getattr(f, "reason", "processor")
             out.data, out.ctx = data, ctx
             return out
@@ -244,7 +255,7 @@ def run(prog: Sequence[str], data: Any, ctx: Dict[str, Any]) -> Outcome:
             out.table.append({})
         out.diffs.append({
             "created": sorted(k for k in ctx if k not in before),
-            "updated": sorted(k for k in ctx if k in before and ctx[k] != before[k]),
+            "updated": sorted(k for k in ctx if k in before and not _same(ctx[k], before[k])),
             "rewritten": sorted(k for k in ctx if k in before),
             "removed": sorted(k for k in before if k not in ctx),
         })
